@@ -230,6 +230,10 @@ def check_recorded(env, m, rec, backend, tag, spec):
                   signature=tag + ":mosek-vars")
 
 
+class _StopAfterRecording(Exception):
+    pass
+
+
 def prog_model(env, case):
     spec = case['spec']
     backend = spec.get('backend', 'cvxpy')
@@ -239,10 +243,24 @@ def prog_model(env, case):
         mstub = MosekStub(env).install()
     elif backend == 'mosek':
         pipeline.enable_mosek_emulator()
-    m = pipeline.build(env, spec)
-    tau, err = pipeline.safe_solve(env, m.pep, tag, wrapper=backend, verbose=spec.get('verbose', 0))
-    if err:
-        return err
+    m = pipeline.build(pipeline.ConcreteParamsEnv(env) if spec.get('concrete_params') else env, spec)
+    if spec.get('record_only') and env.sym:
+        # large models: only the problem handed over matters here - stop at the solver call
+        import cvxpy
+        import mosek
+
+        def stop(*a, **k):
+            raise _StopAfterRecording()
+        cvxpy.SOLVER_HOOK[0] = stop
+        mosek.OPTIMIZE_HOOK[0] = stop
+        try:
+            m.pep.solve(wrapper=backend, verbose=0)
+        except _StopAfterRecording:
+            pass
+    else:
+        tau, err = pipeline.safe_solve(env, m.pep, tag, wrapper=backend, verbose=spec.get('verbose', 0))
+        if err:
+            return err
     w = m.pep.wrapper
     if backend == 'mosek':
         from PEPit import Expression
@@ -292,6 +310,7 @@ def cases(tier):
     add("function-lmi-and-constraint", function_lmi=True, function_lmi_with_constraint=True, lmis=['one'])
     add("partition", partition=2)
     add("two-partitions", partition=2, second_partition=3)
+    add("large-gram", extra_points=70, record_only=True, concrete_params=True)
     if tier == 'thorough':
         add("gd2-cons-lmi", steps=['grad', 'grad'], cons=['le', 'eq'], lmis=['three'])
         add("lmi-objects-reversed", lmis=['sym2', 'one'], lmi_objects=True, lmi_reversed=True, lmi_unadded=True)
